@@ -11,6 +11,7 @@
 -/
 import Desync.Proofs.TarProofs
 import Desync.Proofs.TarGoodbyeSeek
+import Desync.Proofs.LocalFSReadProofs
 
 namespace Desync.C13
 open Desync
@@ -175,6 +176,32 @@ theorem gen_sites :
     Gen.site_const_CaFormatGoodbyeHashKey0_found = true ∧ Gen.site_const_CaFormatGoodbyeHashKey1_found = true ∧
     Gen.site_const_CaFormatFilename_found = true ∧ Gen.site_const_CaFormatEntry_found = true ∧
     Gen.site_const_CaFormatPayload_found = true := by decide
+
+/-! ### packing from disk: child names sorted -/
+
+/-- **Child names are sorted when packing from disk.**  The record stream `Tar` gets from `LocalFS` for any directory of a
+    valid file system is the pre-order traversal of a tree in which the children of every directory come in strictly
+    increasing byte-wise name order (`Tree.Walked`; model of `filepath.Walk` + `LocalFS.Next`, `Model/LocalFSRead.lean`) -/
+theorem disk_children_sorted (env : LFS.Env) (nt : Bool) (skip : LFS.RPath → Bool) (fs : LFS.FS)
+    (root : List LFS.Name) (hv : LFS.FSValid fs) (hr : LFS.SrcRoot fs root) :
+    ∃ t : Tree, LFS.readTree env nt skip fs (LFS.absStr root) = some (.ok t.records) ∧
+      t.Walked (LFS.absStr root) ∧ ∀ f ∈ t.records, LFS.RecOK nt root f :=
+  LFS.readTree_walked env nt skip fs root hv hr
+
+/-- … and the archive written for a representable directory is the closed form `Tree.body` of that sorted tree: the goodbye
+    theorems above apply to every directory of every archive packed from disk, with children in sorted order -/
+theorem disk_archive_is_sorted_tree_encoding (env : LFS.Env) (nt : Bool) (fs : LFS.FS) (root : List LFS.Name)
+    (hv : LFS.FSValid fs) (hr : LFS.SrcRoot fs root) (hd : LFS.IsDir (fs.get root))
+    (hrep : ∀ recs, LFS.readTree env nt LFS.noSkip fs (LFS.absStr root) = some (.ok recs) → LFS.Representable nt recs) :
+    ∃ (r : FileRec) (cs : List Tree),
+      LFS.readTree env nt LFS.noSkip fs (LFS.absStr root) = some (.ok (Tree.dir r cs).records) ∧
+      (Tree.dir r cs).Walked (LFS.absStr root) ∧ (Tree.dir r cs).Sorted ∧
+      tarStream (Tree.dir r cs).records = some (Tree.dir r cs).body :=
+  LFS.disk_archive_is_sorted_tree_encoding env nt fs root hv hr hd hrep
+
+/-- regenerated: the walk of `startSerializer` and what its callback sends -/
+theorem gen_lfsread_walk :
+    Gen.site_lfsread_walk_found = true ∧ Gen.lfsWalkCallback = LFS.ReadFacts.walkCallback := by decide
 
 /-! non-vacuity: three children -/
 example : (makeGoodbyeBST [⟨1, 1, 30⟩, ⟨2, 1, 10⟩, ⟨3, 1, 20⟩]).isSome := bst_total _
